@@ -789,7 +789,7 @@ func Run(r *hk.Run) {
 
 	stores, maxLen := 8, 4
 	if r.Thorough() {
-		stores, maxLen = 24, 5
+		stores, maxLen = 36, 5
 	}
 	for n := 0; n < stores; n++ {
 		g.shareCase(n+int(r.Res.Seed)*stores, maxLen)
